@@ -9,7 +9,7 @@
 use std::collections::BTreeMap;
 use std::os::fd::AsRawFd;
 use std::sync::Arc;
-use std::sync::atomic::{AtomicBool, AtomicI64, AtomicU64, Ordering};
+use std::sync::atomic::{AtomicBool, AtomicI64, Ordering};
 use std::time::{Duration, Instant};
 
 use proptest::prelude::*;
@@ -17,11 +17,13 @@ use serde::{Deserialize, Serialize};
 
 use sst::Builder;
 use sst::log::{ConcurrentLogBuilder, LogIterator, LogOptions, WriteBatch};
+use vcore::gens::sel;
 use vcore::{Ctx, Outcome, Property, Tier};
 
 use crate::model::*;
 use crate::seq::bucket;
 use crate::shim;
+use crate::shim::FaultEvent;
 
 #[derive(Clone, Copy, Debug, PartialEq, Eq, Serialize, Deserialize)]
 pub enum Delay {
@@ -31,13 +33,14 @@ pub enum Delay {
     SleepUs(u16),
 }
 
-fn delay() -> impl Strategy<Value = Delay> {
+fn delay() -> BoxedStrategy<Delay> {
     prop_oneof![
         6 => Just(Delay::None),
         3 => (1u8..4).prop_map(Delay::Yield),
         3 => (1u16..3000).prop_map(Delay::Spin),
         1 => (1u16..300).prop_map(Delay::SleepUs),
     ]
+    .boxed()
 }
 
 fn pause(d: Delay) {
@@ -60,12 +63,34 @@ pub enum Mode {
 }
 
 /// `n` entries with values of `vlen` bytes each (the last one a tombstone if `tomb`).
-#[derive(Clone, Debug, Serialize, Deserialize)]
+#[derive(Clone, Debug, Default, Serialize, Deserialize)]
 pub struct BatchShape {
     pub n: u8,
     pub vlen: u32,
     pub tomb: bool,
     pub fill: u8,
+    /// which `WriteBatch` calls build the batch
+    #[serde(default)]
+    pub via: Via,
+    /// one entry only, handed to `ConcurrentLogBuilder::put` / `del` instead of `append`
+    #[serde(default)]
+    pub single: bool,
+    /// payload of exactly this many bytes (entries with 12-byte keys; `n` and `vlen` are ignored)
+    #[serde(default)]
+    pub exact: Option<u32>,
+}
+
+/// How the concurrent builder comes into being.
+#[derive(Clone, Debug, Default, Serialize, Deserialize)]
+pub enum Ctor {
+    /// `ConcurrentLogBuilder::from_write(options, File)`
+    #[default]
+    FromWrite,
+    /// `ConcurrentLogBuilder::new(options, path)`
+    New,
+    /// `from_builder` on a `LogBuilder<File>` that already took `prefill` batches (flushed to the
+    /// file or still in its buffer)
+    FromBuilder { prefill: Vec<BatchShape>, flush: bool },
 }
 
 #[derive(Clone, Debug, Serialize, Deserialize)]
@@ -81,52 +106,175 @@ pub struct ConcCase {
     pub write_delay_us: u16,
     pub sync_delay_us: u16,
     pub seed: u32,
+    #[serde(default)]
+    pub opts: OptShape,
+    #[serde(default)]
+    pub ctor: Ctor,
+    /// calls of `ConcurrentLogBuilder::fsync` made by one extra thread (mode Free only)
+    #[serde(default)]
+    pub fsyncs: u8,
 }
 
-fn batch_shape() -> impl Strategy<Value = BatchShape> {
-    let tiny = (1u8..4, 0u32..24, any::<bool>(), 0u8..4).prop_map(|(n, vlen, tomb, fill)| BatchShape { n, vlen, tomb, fill });
-    let small = (1u8..6, 100u32..3000, any::<bool>(), 0u8..4).prop_map(|(n, vlen, tomb, fill)| BatchShape { n, vlen, tomb, fill });
-    let medium = (1u8..5, 8000u32..32769, any::<bool>(), 0u8..4).prop_map(|(n, vlen, tomb, fill)| BatchShape { n, vlen, tomb, fill });
-    let large = (5u8..17, 30000u32..32769, any::<bool>(), 0u8..4).prop_map(|(n, vlen, tomb, fill)| BatchShape { n, vlen, tomb, fill });
-    prop_oneof![5 => tiny, 4 => small, 3 => medium, 1 => large]
+fn shape(n: u8, vlen: u32, tomb: bool, fill: u8) -> BatchShape {
+    BatchShape { n, vlen, tomb, fill, ..Default::default() }
+}
+
+pub fn exact_shape(p: u32, fill: u8) -> BatchShape {
+    BatchShape { n: 1, fill, exact: Some(p), ..Default::default() }
+}
+
+pub fn batch_shape() -> BoxedStrategy<BatchShape> {
+    let tiny = (1u8..4, 0u32..24, any::<bool>(), 0u8..4).prop_map(|(n, vlen, tomb, fill)| shape(n, vlen, tomb, fill));
+    let small = (1u8..6, 100u32..3000, any::<bool>(), 0u8..4).prop_map(|(n, vlen, tomb, fill)| shape(n, vlen, tomb, fill));
+    let medium = (1u8..5, 8000u32..32769, any::<bool>(), 0u8..4).prop_map(|(n, vlen, tomb, fill)| shape(n, vlen, tomb, fill));
+    let large = (5u8..17, 30000u32..32769, any::<bool>(), 0u8..4).prop_map(|(n, vlen, tomb, fill)| shape(n, vlen, tomb, fill));
+    (prop_oneof![5 => tiny, 4 => small, 3 => medium, 1 => large], via_strategy(), prop::bool::weighted(0.15)).prop_map(|(mut b, via, single)| {
+        b.via = via;
+        b.single = single;
+        b
+    })
+    .boxed()
 }
 
 fn big_batch_shape() -> impl Strategy<Value = BatchShape> {
-    (7u8..17, 32000u32..32769, any::<bool>(), 0u8..4).prop_map(|(n, vlen, tomb, fill)| BatchShape { n, vlen, tomb, fill })
+    (7u8..17, 32000u32..32769, any::<bool>(), 0u8..4, via_strategy()).prop_map(|(n, vlen, tomb, fill, via)| BatchShape { via, ..shape(n, vlen, tomb, fill) })
+}
+
+/// Distances from 1 MiB that matter: the limit itself, one off, the gap between MAX_BATCH_SIZE and
+/// 1 MiB, and a frame header.
+fn near_limit_delta() -> impl Strategy<Value = i32> {
+    prop_oneof![
+        2 => Just(0i32),
+        6 => -3i32..=3,
+        2 => prop_oneof![Just(-(2 * HMAX as i32)), Just(-(2 * HMAX as i32) - 1), Just(-(2 * HMAX as i32) + 1), Just(-(HMAX as i32)), Just(-13i32), Just(13i32), Just(HMAX as i32)],
+        2 => -70i32..=70,
+    ]
+}
+
+fn ctor_strategy() -> BoxedStrategy<Ctor> {
+    prop_oneof![
+        5 => Just(Ctor::FromWrite),
+        2 => Just(Ctor::New),
+        3 => (prop::collection::vec(batch_shape(), 0..4), any::<bool>()).prop_map(|(prefill, flush)| Ctor::FromBuilder { prefill, flush }),
+    ]
+    .boxed()
 }
 
 pub fn strategy(tier: Tier) -> BoxedStrategy<ConcCase> {
     let max_batches = tier.pick(10usize, 20);
     let free_thread = (prop::collection::vec(batch_shape(), 1..=max_batches), prop::collection::vec(delay(), 1..5)).prop_map(|(batches, before)| ThreadProg { batches, before });
-    let one_small = (batch_shape(), prop::collection::vec(delay(), 1..3)).prop_map(|(b, before)| ThreadProg { batches: vec![b], before });
+    let one_small = (batch_shape(), prop::collection::vec(delay(), 1..3)).prop_map(|(b, before)| ThreadProg { batches: vec![b], before }).boxed();
     let one_big = (big_batch_shape(), prop::collection::vec(delay(), 1..3)).prop_map(|(b, before)| ThreadProg { batches: vec![b], before });
     let delays = (prop_oneof![3 => Just(0u16), 2 => 1u16..200, 1 => 200u16..1500], prop_oneof![3 => Just(0u16), 2 => 1u16..200, 1 => 200u16..1500]);
-    let free = (prop::collection::vec(free_thread, 2..9), delays.clone(), any::<u32>())
-        .prop_map(|(threads, (w, s), seed)| ConcCase { threads, mode: Mode::Free, write_delay_us: w, sync_delay_us: s, seed });
+    let setup = (opt_shape().boxed(), ctor_strategy());
+    let free = (prop::collection::vec(free_thread, 2..9), delays.clone(), any::<u32>(), setup.clone(), prop_oneof![3 => Just(0u8), 1 => 1u8..6])
+        .prop_map(|(threads, (w, s), seed, (opts, ctor), fsyncs)| ConcCase { threads, mode: Mode::Free, write_delay_us: w, sync_delay_us: s, seed, opts, ctor, fsyncs });
     let pile_mode = prop_oneof![Just(Mode::PileupWrite), Just(Mode::PileupSync)];
-    let pile_small = (prop::collection::vec(one_small, 3..9), pile_mode.clone(), any::<u32>())
-        .prop_map(|(threads, mode, seed)| ConcCase { threads, mode, write_delay_us: 0, sync_delay_us: 0, seed });
+    let pile_small = (prop::collection::vec(one_small.clone(), 3..9), pile_mode.clone(), any::<u32>(), setup.clone())
+        .prop_map(|(threads, mode, seed, (opts, ctor))| ConcCase { threads, mode, write_delay_us: 0, sync_delay_us: 0, seed, opts, ctor, fsyncs: 0 });
     // pile-ups whose batches can not all be merged (more than 1 MiB wait at once)
-    let pile_big = (prop::collection::vec(one_big, 4..9), any::<u32>())
-        .prop_map(|(threads, seed)| ConcCase { threads, mode: Mode::PileupWrite, write_delay_us: 0, sync_delay_us: 0, seed });
-    prop_oneof![6 => free, 3 => pile_small, 1 => pile_big].boxed()
+    let pile_big = (prop::collection::vec(one_big, 4..9), any::<u32>(), setup.clone())
+        .prop_map(|(threads, seed, (opts, ctor))| ConcCase { threads, mode: Mode::PileupWrite, write_delay_us: 0, sync_delay_us: 0, seed, opts, ctor, fsyncs: 0 });
+    // Directed sizes.  (a) the waiters of a write pile-up total 1 MiB + delta, split among 2-7
+    // waiters at generated cut points; (b) a maximal batch waits together with a tiny one.
+    let head = (1u8..3, 0u32..40, any::<bool>()).prop_map(|(n, vlen, tomb)| ThreadProg { batches: vec![shape(n, vlen, tomb, 0)], before: vec![Delay::None] }).boxed();
+    let pile_exact = (head.clone(), near_limit_delta(), prop::collection::vec(any::<u16>(), 1..7), 0u8..4, via_strategy(), any::<u32>(), setup.clone()).prop_map(|(head, delta, mut cuts, fill, via, seed, (opts, ctor))| {
+        let total = (BLOCK as i64 + delta as i64) as usize;
+        let k = cuts.len() + 1;
+        let min = 20usize;
+        cuts.sort();
+        let free_bytes = total - min * k;
+        let mut at: Vec<usize> = cuts.iter().map(|c| sel(*c, free_bytes + 1)).collect();
+        at.push(free_bytes);
+        let mut threads = vec![head];
+        let mut prev = 0usize;
+        for a in at {
+            let p = (min + a - prev).min(BLOCK as usize);
+            prev = a;
+            threads.push(ThreadProg { batches: vec![BatchShape { via, ..exact_shape(p as u32, fill) }], before: vec![Delay::None] });
+        }
+        ConcCase { threads, mode: Mode::PileupWrite, write_delay_us: 0, sync_delay_us: 0, seed, opts, ctor, fsyncs: 0 }
+    });
+    let maximal = prop_oneof![
+        4 => (0u32..3).prop_map(|d| BLOCK as u32 - d),
+        2 => (0u32..3).prop_map(|d| sst::log::MAX_BATCH_SIZE as u32 + 1 - d),
+        1 => (0u32..3).prop_map(|d| sst::MAX_BATCH_LEN as u32 + 1 - d),
+    ]
+    .boxed();
+    let pile_max = (head, prop::collection::vec((20u32..80, 0u8..4), 1..3), maximal.clone(), any::<u16>(), pile_mode, any::<u32>(), setup.clone()).prop_map(|(head, tinies, big, place, mode, seed, (opts, ctor))| {
+        let mut followers: Vec<ThreadProg> = tinies.iter().map(|(p, fill)| ThreadProg { batches: vec![exact_shape(*p, *fill)], before: vec![Delay::None] }).collect();
+        followers.insert(sel(place, followers.len() + 1), ThreadProg { batches: vec![exact_shape(big, 0)], before: vec![Delay::None] });
+        let mut threads = vec![head];
+        threads.extend(followers);
+        ConcCase { threads, mode, write_delay_us: 0, sync_delay_us: 0, seed, opts, ctor, fsyncs: 0 }
+    });
+    let max_thread = (prop::collection::vec(prop_oneof![2 => maximal.prop_map(|p| exact_shape(p, 0)), 3 => batch_shape()], 1..4), prop::collection::vec(delay(), 1..3)).prop_map(|(batches, before)| ThreadProg { batches, before });
+    let free_max = (prop::collection::vec(max_thread, 2..5), delays, any::<u32>(), setup)
+        .prop_map(|(threads, (w, s), seed, (opts, ctor))| ConcCase { threads, mode: Mode::Free, write_delay_us: w, sync_delay_us: s, seed, opts, ctor, fsyncs: 0 });
+    prop_oneof![12 => free, 6 => pile_small, 2 => pile_big, 4 => pile_exact, 2 => pile_max, 1 => free_max].boxed()
+}
+
+/// Smaller cases for the fault-injection part: 2-6 threads with 1-5 batches each, all three modes
+/// (in the pile-up modes every waiter is inside its first call when the held call is released).
+pub fn fault_strategy(tier: Tier) -> BoxedStrategy<ConcCase> {
+    let max_batches = tier.pick(5usize, 8);
+    let thread = (prop::collection::vec(batch_shape(), 1..=max_batches), prop::collection::vec(delay(), 1..4)).prop_map(|(batches, before)| ThreadProg { batches, before });
+    let follower = (prop::collection::vec(batch_shape(), 1..3), prop::collection::vec(delay(), 1..3)).prop_map(|(batches, before)| ThreadProg { batches, before });
+    let delays = (prop_oneof![3 => Just(0u16), 2 => 1u16..200], prop_oneof![3 => Just(0u16), 2 => 1u16..200]);
+    let free = (prop::collection::vec(thread, 2..7), delays, any::<u32>(), opt_shape(), ctor_strategy(), prop_oneof![3 => Just(0u8), 1 => 1u8..4])
+        .prop_map(|(threads, (w, s), seed, opts, ctor, fsyncs)| ConcCase { threads, mode: Mode::Free, write_delay_us: w, sync_delay_us: s, seed, opts, ctor, fsyncs });
+    let pile = (prop::collection::vec(follower, 3..7), prop_oneof![Just(Mode::PileupWrite), Just(Mode::PileupSync)], any::<u32>(), opt_shape(), ctor_strategy())
+        .prop_map(|(threads, mode, seed, opts, ctor)| ConcCase { threads, mode, write_delay_us: 0, sync_delay_us: 0, seed, opts, ctor, fsyncs: 0 });
+    prop_oneof![5 => free, 6 => pile].boxed()
 }
 
 //////////////////////////////////////////// content ///////////////////////////////////////////////
 
-fn entries_of(seed: u64, t: usize, s: usize, b: &BatchShape) -> Vec<Entry> {
-    (0..b.n as usize)
+pub fn entries_of(seed: u64, t: usize, s: usize, b: &BatchShape) -> Vec<Entry> {
+    if let (Some(p), false) = (b.exact, b.single) {
+        if let Some(vs) = plan_exact_tagged(p as usize) {
+            return vs
+                .iter()
+                .enumerate()
+                .map(|(e, v)| {
+                    let tag = vcore::mix(seed ^ ((t as u64) << 40) ^ ((s as u64) << 16) ^ e as u64);
+                    Entry { key: format!("t{t:02}s{s:04}e{e:02}|").into_bytes(), ts: TAGGED_TS, val: v.map(|n| fill_bytes(n, tag ^ 0x76, b.fill)) }
+                })
+                .collect();
+        }
+    }
+    let n = if b.single { 1 } else { b.n.max(1) as usize };
+    (0..n)
         .map(|e| {
             let tag = vcore::mix(seed ^ ((t as u64) << 40) ^ ((s as u64) << 16) ^ e as u64);
             let mut key = format!("t{t:02}s{s:04}e{e:02}|").into_bytes();
             key.extend_from_slice(&fill_bytes((tag % 9) as usize, tag, 0));
-            let val = if b.tomb && e + 1 == b.n as usize { None } else { Some(fill_bytes(b.vlen as usize, tag ^ 0x76, b.fill)) };
+            let val = if b.tomb && e + 1 == n { None } else { Some(fill_bytes(b.vlen as usize, tag ^ 0x76, b.fill)) };
             Entry { key, ts: 1 + (tag >> 40), val }
         })
         .collect()
 }
 
-fn parse_key(k: &[u8]) -> Option<(usize, usize, usize)> {
+/// What a thread hands to the builder.
+pub enum Prepared {
+    Batch(WriteBatch),
+    /// through `ConcurrentLogBuilder::put` / `del`
+    Single(Entry),
+}
+
+/// The call for batch `b` with entries `es`, and its payload size in the log.
+pub fn prepare(es: &[Entry], b: &BatchShape) -> Result<(Prepared, u64), sst::SError> {
+    if b.single {
+        let wb = make_batch(es)?;
+        Ok((Prepared::Single(es[0].clone()), wb.approximate_size() as u64))
+    } else {
+        let wb = make_batch_via(es, b.via)?;
+        let sz = wb.approximate_size() as u64;
+        Ok((Prepared::Batch(wb), sz))
+    }
+}
+
+pub fn parse_key(k: &[u8]) -> Option<(usize, usize, usize)> {
     if k.len() < 12 || k[0] != b't' || k[3] != b's' || k[8] != b'e' || k[11] != b'|' {
         return None;
     }
@@ -188,22 +336,33 @@ fn parked_snapshot(tids: &[i64]) -> Option<Vec<(i64, u64, u64)>> {
 
 ////////////////////////////////////////////// the run /////////////////////////////////////////////
 
-struct Rec {
-    start: u64,
-    end: u64,
-    synced_at_return: u64,
-    err: Option<String>,
+pub struct Rec {
+    pub start: u64,
+    pub end: u64,
+    pub synced_at_return: u64,
+    pub err: Option<String>,
+}
+
+/// One call of `ConcurrentLogBuilder::fsync` by the extra thread.
+pub struct FsyncRec {
+    /// bytes in the file when the call was made
+    pub len_before: u64,
+    pub synced_at_return: u64,
+    pub start: u64,
+    pub end: u64,
+    pub err: Option<String>,
 }
 
 struct Shared {
-    clock: AtomicU64,
+    /// some thread has returned from a call
+    any_returned: AtomicBool,
     tids: Vec<AtomicI64>,
     in_append: Vec<AtomicBool>,
     done: Vec<AtomicBool>,
     panicked: AtomicBool,
 }
 
-fn panic_text(p: &(dyn std::any::Any + Send)) -> String {
+pub fn panic_text(p: &(dyn std::any::Any + Send)) -> String {
     if let Some(s) = p.downcast_ref::<&str>() {
         s.to_string()
     } else if let Some(s) = p.downcast_ref::<String>() {
@@ -213,69 +372,161 @@ fn panic_text(p: &(dyn std::any::Any + Send)) -> String {
     }
 }
 
-fn run_once(ctx: &Ctx, c: &ConcCase) -> Outcome {
+/// The descriptor this process holds on `path` (for builders that open the file themselves).
+pub fn fd_of_path(path: &std::path::Path) -> Option<i32> {
+    let want = std::fs::canonicalize(path).ok()?;
+    for e in std::fs::read_dir("/proc/self/fd").ok()?.flatten() {
+        if let Ok(target) = std::fs::read_link(e.path()) {
+            if target == want {
+                return e.file_name().to_str()?.parse().ok();
+            }
+        }
+    }
+    None
+}
+
+/// Everything observed while the threads ran.
+pub struct Driven {
+    /// entries per thread and batch; the prefill of `Ctor::FromBuilder` is a pseudo thread after the
+    /// real ones
+    pub plan: Vec<Vec<Vec<Entry>>>,
+    pub payload: Vec<Vec<u64>>,
+    pub recs: Vec<Vec<Rec>>,
+    pub fsyncs: Vec<FsyncRec>,
+    pub prefilled: bool,
+    pub pile_established: bool,
+    pub writes: u64,
+    pub syncs: u64,
+    pub shim_len: u64,
+    pub odd: u64,
+    pub write_trace: Vec<(u64, u64)>,
+    pub faults: Vec<FaultEvent>,
+    pub writes_after_failure: u64,
+    pub sealed: Result<sst::Setsum, String>,
+    pub opts: LogOptions,
+    pub dir: std::path::PathBuf,
+    pub path: std::path::PathBuf,
+}
+
+/// Run the threads of `c` against a fresh builder.  `after_arm(writes, syncs)` is called when the
+/// shim watches the log's descriptor and the builder exists (with the number of write / sync calls
+/// the construction itself made), before any thread starts; `tolerate_errors` keeps going when the
+/// construction fails.  `Err` carries the outcome of a run that can not be judged.
+pub fn drive(ctx: &Ctx, c: &ConcCase, after_arm: &dyn Fn(u64, u64)) -> Result<Driven, Outcome> {
     let mut o = Outcome::pass();
     let nt = c.threads.len();
     let seed = c.seed as u64;
+    let opts = c.opts.build();
     // content
-    let plan: Vec<Vec<Vec<Entry>>> = c.threads.iter().enumerate().map(|(t, p)| p.batches.iter().enumerate().map(|(s, b)| entries_of(seed, t, s, b)).collect()).collect();
+    let mut shapes: Vec<Vec<BatchShape>> = c.threads.iter().map(|p| p.batches.clone()).collect();
+    let prefill: Vec<BatchShape> = match &c.ctor {
+        Ctor::FromBuilder { prefill, .. } => prefill.iter().map(|b| BatchShape { single: false, ..b.clone() }).collect(),
+        _ => vec![],
+    };
+    let prefilled = matches!(c.ctor, Ctor::FromBuilder { .. });
+    if prefilled {
+        shapes.push(prefill);
+    }
+    let plan: Vec<Vec<Vec<Entry>>> = shapes.iter().enumerate().map(|(t, bs)| bs.iter().enumerate().map(|(s, b)| entries_of(seed, t, s, b)).collect()).collect();
     let mut payload: Vec<Vec<u64>> = vec![];
-    let mut batches: Vec<Vec<WriteBatch>> = vec![];
-    for th in plan.iter() {
+    let mut prepared: Vec<Vec<Prepared>> = vec![];
+    for (t, th) in plan.iter().enumerate() {
         let mut ps = vec![];
         let mut bs = vec![];
-        for es in th.iter() {
-            match make_batch(es) {
-                Ok(wb) => {
-                    ps.push(wb.approximate_size() as u64);
-                    bs.push(wb);
+        for (s, es) in th.iter().enumerate() {
+            match prepare(es, &shapes[t][s]) {
+                Ok((p, sz)) => {
+                    ps.push(sz);
+                    bs.push(p);
                 }
                 Err(e) => {
                     o.fail("batch-entry-refused", format!("a write batch within the limits refused an entry: {e:?}"));
-                    return o;
+                    return Err(o);
                 }
             }
         }
         payload.push(ps);
-        batches.push(bs);
+        prepared.push(bs);
     }
-    let total_batches: usize = plan.iter().map(|t| t.len()).sum();
 
     let dir = ctx.fresh_dir("conc");
     let path = dir.join("log");
-    let file = match std::fs::OpenOptions::new().create_new(true).read(true).write(true).open(&path) {
-        Ok(f) => f,
-        Err(e) => {
-            o.inconclusive = true;
-            o.label(format!("harness: cannot create the log file: {e}"));
-            return o;
-        }
-    };
-    let fd = file.as_raw_fd();
-    shim::arm(fd, c.write_delay_us as u64, c.sync_delay_us as u64);
-    match c.mode {
-        Mode::Free => {}
-        Mode::PileupWrite => shim::GATE_WRITE_AT.store(0, Ordering::SeqCst),
-        Mode::PileupSync => shim::GATE_SYNC_AT.store(0, Ordering::SeqCst),
-    }
-    let log = match ConcurrentLogBuilder::from_write(LogOptions::default(), file) {
-        Ok(l) => Arc::new(l),
-        Err(e) => {
+    macro_rules! harness_fail {
+        ($($m:tt)*) => {{
             shim::disarm();
             o.inconclusive = true;
-            o.label(format!("harness: from_write failed: {e:?}"));
-            return o;
+            o.label(format!($($m)*));
+            return Err(o);
+        }};
+    }
+    let log: ConcurrentLogBuilder<std::fs::File> = match &c.ctor {
+        Ctor::New => {
+            let log = match ConcurrentLogBuilder::new(opts.clone(), &path) {
+                Ok(l) => l,
+                Err(e) => harness_fail!("harness: ConcurrentLogBuilder::new failed: {e:?}"),
+            };
+            let Some(fd) = fd_of_path(&path) else { harness_fail!("harness: cannot find the descriptor of the log") };
+            shim::arm(fd, c.write_delay_us as u64, c.sync_delay_us as u64);
+            log
+        }
+        other => {
+            let file = match std::fs::OpenOptions::new().create_new(true).read(true).write(true).open(&path) {
+                Ok(f) => f,
+                Err(e) => harness_fail!("harness: cannot create the log file: {e}"),
+            };
+            shim::arm(file.as_raw_fd(), c.write_delay_us as u64, c.sync_delay_us as u64);
+            match other {
+                Ctor::FromBuilder { flush, .. } => {
+                    let mut b = match sst::log::LogBuilder::from_write(opts.clone(), file) {
+                        Ok(b) => b,
+                        Err(e) => harness_fail!("harness: from_write failed: {e:?}"),
+                    };
+                    for p in prepared.pop().unwrap_or_default() {
+                        let Prepared::Batch(wb) = p else { continue };
+                        if let Err(e) = b.append(&wb) {
+                            shim::disarm();
+                            o.fail("append-refused", format!("LogBuilder::append of a prefill batch failed: {e:?}"));
+                            return Err(o);
+                        }
+                    }
+                    if *flush {
+                        if let Err(e) = b.flush() {
+                            shim::disarm();
+                            o.fail("flush-failed", format!("LogBuilder::flush failed: {e:?}"));
+                            return Err(o);
+                        }
+                    }
+                    match ConcurrentLogBuilder::from_builder(b) {
+                        Ok(l) => l,
+                        Err(e) => harness_fail!("harness: from_builder failed: {e:?}"),
+                    }
+                }
+                _ => match ConcurrentLogBuilder::from_write(opts.clone(), file) {
+                    Ok(l) => l,
+                    Err(e) => harness_fail!("harness: from_write failed: {e:?}"),
+                },
+            }
         }
     };
+    let log = Arc::new(log);
+    let (w0, s0) = (shim::WRITES.load(Ordering::SeqCst), shim::SYNCS.load(Ordering::SeqCst));
+    match c.mode {
+        Mode::Free => {}
+        Mode::PileupWrite => shim::GATE_WRITE_AT.store(w0, Ordering::SeqCst),
+        Mode::PileupSync => shim::GATE_SYNC_AT.store(s0, Ordering::SeqCst),
+    }
+    after_arm(w0, s0);
+    let fsyncer = c.mode == Mode::Free && c.fsyncs > 0;
+    let nthreads = nt + fsyncer as usize;
     let sh = Arc::new(Shared {
-        clock: AtomicU64::new(1),
-        tids: (0..nt).map(|_| AtomicI64::new(0)).collect(),
-        in_append: (0..nt).map(|_| AtomicBool::new(false)).collect(),
-        done: (0..nt).map(|_| AtomicBool::new(false)).collect(),
+        any_returned: AtomicBool::new(false),
+        tids: (0..nthreads).map(|_| AtomicI64::new(0)).collect(),
+        in_append: (0..nthreads).map(|_| AtomicBool::new(false)).collect(),
+        done: (0..nthreads).map(|_| AtomicBool::new(false)).collect(),
         panicked: AtomicBool::new(false),
     });
     let mut hs = vec![];
-    for (t, wbs) in batches.into_iter().enumerate() {
+    for (t, wbs) in prepared.into_iter().enumerate() {
         let sh = Arc::clone(&sh);
         let log = Arc::clone(&log);
         let before = c.threads[t].before.clone();
@@ -296,12 +547,19 @@ fn run_once(ctx: &Ctx, c: &ConcCase) -> Outcome {
                 let mut recs = vec![];
                 for (i, wb) in wbs.into_iter().enumerate() {
                     pause(if before.is_empty() { Delay::None } else { before[i % before.len()] });
-                    let start = sh.clock.fetch_add(1, Ordering::SeqCst);
+                    let start = shim::tick();
                     sh.in_append[t].store(true, Ordering::SeqCst);
-                    let r = log.append(wb);
+                    let r = match wb {
+                        Prepared::Batch(wb) => log.append(wb),
+                        Prepared::Single(e) => match &e.val {
+                            Some(v) => log.put(&e.key, e.ts, v),
+                            None => log.del(&e.key, e.ts),
+                        },
+                    };
                     let synced_at_return = shim::SYNCED.load(Ordering::SeqCst);
                     sh.in_append[t].store(false, Ordering::SeqCst);
-                    let end = sh.clock.fetch_add(1, Ordering::SeqCst);
+                    sh.any_returned.store(true, Ordering::SeqCst);
+                    let end = shim::tick();
                     recs.push(Rec { start, end, synced_at_return, err: r.err().map(|e| vcore::truncate(&format!("{e:?}"), 300)) });
                 }
                 recs
@@ -313,6 +571,39 @@ fn run_once(ctx: &Ctx, c: &ConcCase) -> Outcome {
             r.map_err(|p| panic_text(&*p))
         }));
     }
+    let fsync_handle = if fsyncer {
+        let sh = Arc::clone(&sh);
+        let log = Arc::clone(&log);
+        let calls = c.fsyncs;
+        let before = c.threads[0].before.clone();
+        Some(std::thread::spawn(move || {
+            sh.tids[nt].store(unsafe { libc::syscall(libc::SYS_gettid) } as i64, Ordering::SeqCst);
+            let r = std::panic::catch_unwind(std::panic::AssertUnwindSafe(|| {
+                while sh.tids.iter().any(|x| x.load(Ordering::SeqCst) == 0) {
+                    std::thread::yield_now();
+                }
+                let mut recs = vec![];
+                for i in 0..calls as usize {
+                    pause(if before.is_empty() { Delay::Yield(1) } else { before[i % before.len()] });
+                    std::thread::yield_now();
+                    let start = shim::tick();
+                    let len_before = shim::LEN.load(Ordering::SeqCst);
+                    let r = log.fsync();
+                    let synced_at_return = shim::SYNCED.load(Ordering::SeqCst);
+                    let end = shim::tick();
+                    recs.push(FsyncRec { len_before, synced_at_return, start, end, err: r.err().map(|e| vcore::truncate(&format!("{e:?}"), 300)) });
+                }
+                recs
+            }));
+            if r.is_err() {
+                sh.panicked.store(true, Ordering::SeqCst);
+            }
+            sh.done[nt].store(true, Ordering::SeqCst);
+            r.map_err(|p| panic_text(&*p))
+        }))
+    } else {
+        None
+    };
     // supervise
     let t0 = Instant::now();
     let mut pile_established = false;
@@ -345,7 +636,9 @@ fn run_once(ctx: &Ctx, c: &ConcCase) -> Outcome {
                     }
                 }
             }
-            if pile_established || t0.elapsed() > Duration::from_secs(3) {
+            // (With injected faults the head may fail before it reaches the call that is to be held,
+            // and a waiter may fail and leave; without faults no call returns while the gate is shut.)
+            if pile_established || sh.any_returned.load(Ordering::SeqCst) || t0.elapsed() > Duration::from_secs(3) {
                 shim::GATE_OPEN.store(true, Ordering::SeqCst);
                 gate_opened = true;
             }
@@ -379,6 +672,18 @@ fn run_once(ctx: &Ctx, c: &ConcCase) -> Outcome {
             recs.push(vec![]);
         }
     }
+    let mut fsyncs = vec![];
+    if let Some(h) = fsync_handle {
+        if sh.done[nt].load(Ordering::SeqCst) {
+            match h.join() {
+                Ok(Ok(r)) => fsyncs = r,
+                Ok(Err(m)) => panics.push((nt, m)),
+                Err(_) => panics.push((nt, "thread died outside catch_unwind".into())),
+            }
+        } else {
+            missing += 1;
+        }
+    }
     let writes = shim::WRITES.load(Ordering::SeqCst);
     let syncs = shim::SYNCS.load(Ordering::SeqCst);
     let write_trace = shim::WRITE_TRACE.lock().unwrap().clone();
@@ -389,11 +694,11 @@ fn run_once(ctx: &Ctx, c: &ConcCase) -> Outcome {
             o.nontrivial = true;
             let sig: String = m.chars().take(48).map(|c| if c.is_ascii_alphanumeric() { c.to_ascii_lowercase() } else { '-' }).collect();
             o.fail(format!("conc-append-panic:{}", sig.trim_matches('-')), format!("thread {t} panicked inside ConcurrentLogBuilder::append: {m} ({} threads panicked, {missing} never returned)", panics.len()));
-            return o;
+            return Err(o);
         }
         o.inconclusive = true;
-        o.label(format!("watchdog: {missing} of {nt} threads had not finished after {:?}", t0.elapsed()));
-        return o;
+        o.label(format!("watchdog: {missing} of {nthreads} threads had not finished after {:?}", t0.elapsed()));
+        return Err(o);
     }
     // seal
     let log = match Arc::try_unwrap(log) {
@@ -402,45 +707,153 @@ fn run_once(ctx: &Ctx, c: &ConcCase) -> Outcome {
             shim::disarm();
             o.inconclusive = true;
             o.label("harness: builder still shared after all threads finished");
-            return o;
+            return Err(o);
         }
     };
-    let sealed = log.seal();
-    let shim_len = shim::LEN.load(Ordering::SeqCst);
-    let odd = shim::ODD_WRITES.load(Ordering::SeqCst);
-    shim::disarm();
-    let setsum = match sealed {
-        Ok((s, file)) => {
+    let writes_after_failure = shim::WRITES_AFTER_FAILURE.load(Ordering::SeqCst);
+    let sealed = match vcore::guard(|| log.seal()) {
+        Ok(r) => r.map(|(s, file)| {
             drop(file);
             s
-        }
-        Err(e) => {
-            o.fail("conc-seal-failed", format!("seal failed after {total_batches} successful appends: {e:?}"));
-            return o;
+        })
+        .map_err(|e| vcore::truncate(&format!("{e:?}"), 300)),
+        Err(f) => {
+            shim::disarm();
+            o.nontrivial = true;
+            o.fail(f.signature, format!("ConcurrentLogBuilder::seal panics: {}", f.message));
+            return Err(o);
         }
     };
-    let verdict = judge(c, &plan, &payload, &recs, &path, setsum, pile_established, writes, syncs, shim_len, odd, &write_trace, &mut o);
-    let _ = verdict;
-    let _ = std::fs::remove_dir_all(&dir);
+    let shim_len = shim::LEN.load(Ordering::SeqCst);
+    let odd = shim::ODD_WRITES.load(Ordering::SeqCst);
+    let faults = shim::FAULT_LOG.lock().unwrap().clone();
+    shim::disarm();
+    // the prefill is a pseudo thread whose appends are not acknowledged as durable by anybody
+    if prefilled {
+        recs.push(plan[nt].iter().map(|_| Rec { start: 0, end: 0, synced_at_return: u64::MAX, err: None }).collect());
+    }
+    Ok(Driven { plan, payload, recs, fsyncs, prefilled, pile_established, writes, syncs, shim_len, odd, write_trace, faults, writes_after_failure, sealed, opts, dir, path })
+}
+
+fn run_once(ctx: &Ctx, c: &ConcCase) -> Outcome {
+    let d = match drive(ctx, c, &|_, _| {}) {
+        Ok(d) => d,
+        Err(o) => return o,
+    };
+    let mut o = Outcome::pass();
+    judge(c, &d, &mut o);
+    let _ = std::fs::remove_dir_all(&d.dir);
     o
 }
 
-#[allow(clippy::too_many_arguments)]
-fn judge(
-    c: &ConcCase,
-    plan: &[Vec<Vec<Entry>>],
-    payload: &[Vec<u64>],
-    recs: &[Vec<Rec>],
-    path: &std::path::Path,
-    setsum: sst::Setsum,
-    pile_established: bool,
-    writes: u64,
-    syncs: u64,
-    shim_len: u64,
-    odd: u64,
-    write_trace: &[(u64, u64)],
-    o: &mut Outcome,
-) {
+/// Batches in the order the reader yields them, and how the iteration ended.
+pub struct ReadBack {
+    pub order: Vec<(usize, usize)>,
+    pub entries: usize,
+    /// the reader's error, if it did not end cleanly
+    pub error: Option<String>,
+}
+
+/// Read the log through the path-based reader and check every entry against the plan: no entry
+/// that was never appended, no changed entry, every batch whole and contiguous.  `Err(())` when an
+/// oracle failed (recorded in `o`).  A reader error ends the walk; the caller decides what it means.
+pub fn read_back(plan: &[Vec<Vec<Entry>>], opts: &LogOptions, path: &std::path::Path, o: &mut Outcome) -> Result<ReadBack, ()> {
+    let mut it = match LogIterator::new(opts.clone(), path) {
+        Ok(it) => it,
+        Err(e) => {
+            o.fail("conc-read-error", format!("cannot open the sealed log: {e:?}"));
+            return Err(());
+        }
+    };
+    let mut order: Vec<(usize, usize)> = vec![];
+    let mut cur: Option<(usize, usize, usize)> = None; // (t, s, next e)
+    let mut nread = 0usize;
+    let mut error = None;
+    loop {
+        match it.next() {
+            Ok(Some(kv)) => {
+                nread += 1;
+                let Some((t, s, e)) = parse_key(kv.key) else {
+                    o.fail("conc-foreign-entry", format!("entry #{nread} has key {} which no thread wrote", vcore::gens::show(kv.key)));
+                    return Err(());
+                };
+                let Some(exp) = plan.get(t).and_then(|p| p.get(s)).and_then(|b| b.get(e)) else {
+                    o.fail("conc-foreign-entry", format!("entry #{nread} is tagged thread {t} batch {s} entry {e}, which was never appended"));
+                    return Err(());
+                };
+                if kv.key != &exp.key[..] || kv.timestamp != exp.ts || kv.value != exp.val.as_deref() {
+                    o.fail("conc-entry-differs", format!("entry {e} of batch {s} of thread {t} reads back with different content (value {:?} bytes, appended {:?} bytes)", kv.value.map(|v| v.len()), exp.val.as_ref().map(|v| v.len())));
+                    return Err(());
+                }
+                match cur {
+                    Some((ct, cs, ne)) if e != 0 => {
+                        if (ct, cs, ne) != (t, s, e) {
+                            o.fail("conc-batch-torn", format!("entry {e} of batch {s} of thread {t} follows entry {} of batch {cs} of thread {ct}: a batch is not contiguous", ne as i64 - 1));
+                            return Err(());
+                        }
+                        cur = Some((t, s, e + 1));
+                    }
+                    _ => {
+                        if e != 0 {
+                            o.fail("conc-batch-torn", format!("the log starts a batch with entry {e} of batch {s} of thread {t}"));
+                            return Err(());
+                        }
+                        if let Some((ct, cs, ne)) = cur {
+                            if ne != plan[ct][cs].len() {
+                                o.fail("conc-batch-torn", format!("batch {cs} of thread {ct} stops after {ne} of {} entries", plan[ct][cs].len()));
+                                return Err(());
+                            }
+                        }
+                        order.push((t, s));
+                        cur = Some((t, s, 1));
+                    }
+                }
+            }
+            Ok(None) => break,
+            Err(e) => {
+                error = Some(vcore::truncate(&format!("{e:?}"), 300));
+                break;
+            }
+        }
+    }
+    if let Some((ct, cs, ne)) = cur {
+        if ne != plan[ct][cs].len() {
+            o.fail("conc-batch-torn", format!("batch {cs} of thread {ct} (the last one read) has {ne} of {} entries", plan[ct][cs].len()));
+            return Err(());
+        }
+    }
+    Ok(ReadBack { order, entries: nread, error })
+}
+
+/// Assign the batches (in file order) to the frame groups by payload size.  `Err` names the group
+/// whose payload is not the sum of consecutive whole batches.  Returns (group of each batch,
+/// members of each group, number of batches assigned).
+#[allow(clippy::type_complexity)]
+pub fn assign_groups(groups: &[Group], order: &[(usize, usize)], payload: &[Vec<u64>]) -> Result<(BTreeMap<(usize, usize), usize>, Vec<Vec<(usize, usize)>>, usize), (usize, u64)> {
+    let mut group_of: BTreeMap<(usize, usize), usize> = BTreeMap::new();
+    let mut members: Vec<Vec<(usize, usize)>> = vec![];
+    let mut k = 0usize;
+    for (gi, g) in groups.iter().enumerate() {
+        let mut acc = 0u64;
+        let mut m = vec![];
+        while acc < g.payload && k < order.len() {
+            let (t, s) = order[k];
+            acc += payload[t][s];
+            group_of.insert((t, s), gi);
+            m.push((t, s));
+            k += 1;
+        }
+        if acc != g.payload {
+            return Err((gi, acc));
+        }
+        members.push(m);
+    }
+    Ok((group_of, members, k))
+}
+
+fn judge(c: &ConcCase, d: &Driven, o: &mut Outcome) {
+    let Driven { plan, payload, recs, path, pile_established, writes, syncs, shim_len, odd, write_trace, .. } = d;
+    let (pile_established, writes, syncs, shim_len, odd) = (*pile_established, *writes, *syncs, *shim_len, *odd);
     let nt = c.threads.len();
     let total_batches: usize = plan.iter().map(|t| t.len()).sum();
     // 1. every append succeeded
@@ -457,6 +870,19 @@ fn judge(
             }
         }
     }
+    for (i, f) in d.fsyncs.iter().enumerate() {
+        if let Some(e) = &f.err {
+            o.fail("conc-fsync-error", format!("call #{i} of ConcurrentLogBuilder::fsync failed although no system call failed: {e}"));
+            return;
+        }
+    }
+    let setsum = match &d.sealed {
+        Ok(s) => *s,
+        Err(e) => {
+            o.fail("conc-seal-failed", format!("seal failed after {total_batches} successful appends: {e}"));
+            return;
+        }
+    };
     let bytes = match std::fs::read(path) {
         Ok(b) => b,
         Err(e) => {
@@ -483,69 +909,12 @@ fn judge(
         return;
     }
     // 3. entries, through the path-based reader
-    let mut it = match LogIterator::new(LogOptions::default(), path) {
-        Ok(it) => it,
-        Err(e) => {
-            o.fail("conc-read-error", format!("cannot open the sealed log: {e:?}"));
-            return;
-        }
-    };
-    let mut order: Vec<(usize, usize)> = vec![];
-    let mut cur: Option<(usize, usize, usize)> = None; // (t, s, next e)
-    let mut nread = 0usize;
-    loop {
-        match it.next() {
-            Ok(Some(kv)) => {
-                nread += 1;
-                let Some((t, s, e)) = parse_key(kv.key) else {
-                    o.fail("conc-foreign-entry", format!("entry #{nread} has key {} which no thread wrote", vcore::gens::show(kv.key)));
-                    return;
-                };
-                let Some(exp) = plan.get(t).and_then(|p| p.get(s)).and_then(|b| b.get(e)) else {
-                    o.fail("conc-foreign-entry", format!("entry #{nread} is tagged thread {t} batch {s} entry {e}, which was never appended"));
-                    return;
-                };
-                if kv.key != &exp.key[..] || kv.timestamp != exp.ts || kv.value != exp.val.as_deref() {
-                    o.fail("conc-entry-differs", format!("entry {e} of batch {s} of thread {t} reads back with different content (value {:?} bytes, appended {:?} bytes)", kv.value.map(|v| v.len()), exp.val.as_ref().map(|v| v.len())));
-                    return;
-                }
-                match cur {
-                    Some((ct, cs, ne)) if e != 0 => {
-                        if (ct, cs, ne) != (t, s, e) {
-                            o.fail("conc-batch-torn", format!("entry {e} of batch {s} of thread {t} follows entry {} of batch {cs} of thread {ct}: a batch is not contiguous", ne as i64 - 1));
-                            return;
-                        }
-                        cur = Some((t, s, e + 1));
-                    }
-                    _ => {
-                        if e != 0 {
-                            o.fail("conc-batch-torn", format!("the log starts a batch with entry {e} of batch {s} of thread {t}"));
-                            return;
-                        }
-                        if let Some((ct, cs, ne)) = cur {
-                            if ne != plan[ct][cs].len() {
-                                o.fail("conc-batch-torn", format!("batch {cs} of thread {ct} stops after {ne} of {} entries", plan[ct][cs].len()));
-                                return;
-                            }
-                        }
-                        order.push((t, s));
-                        cur = Some((t, s, 1));
-                    }
-                }
-            }
-            Ok(None) => break,
-            Err(e) => {
-                o.fail("conc-read-error", format!("reading the sealed log fails after {nread} entries: {e:?}"));
-                return;
-            }
-        }
+    let Ok(rb) = read_back(plan, &d.opts, path, o) else { return };
+    if let Some(e) = &rb.error {
+        o.fail("conc-read-error", format!("reading the sealed log fails after {} entries: {e}", rb.entries));
+        return;
     }
-    if let Some((ct, cs, ne)) = cur {
-        if ne != plan[ct][cs].len() {
-            o.fail("conc-batch-torn", format!("batch {cs} of thread {ct} (the last one in the file) has {ne} of {} entries", plan[ct][cs].len()));
-            return;
-        }
-    }
+    let order = rb.order;
     // 4. exactly once, per-thread order
     let mut pos: BTreeMap<(usize, usize), usize> = BTreeMap::new();
     for (i, b) in order.iter().enumerate() {
@@ -567,28 +936,16 @@ fn judge(
         }
     }
     // 5. batches <-> frames
-    let mut group_of: BTreeMap<(usize, usize), usize> = BTreeMap::new();
-    let mut members: Vec<Vec<(usize, usize)>> = vec![];
-    let mut k = 0usize;
-    for (gi, g) in groups.iter().enumerate() {
-        let mut acc = 0u64;
-        let mut m = vec![];
-        while acc < g.payload && k < order.len() {
-            let (t, s) = order[k];
-            acc += payload[t][s];
-            group_of.insert((t, s), gi);
-            m.push((t, s));
-            k += 1;
-        }
-        if acc != g.payload {
-            o.fail("conc-batch-straddles-frames", format!("frame group #{gi} carries {} payload bytes, which is not the sum of consecutive whole batches ({acc})", g.payload));
+    let (group_of, members, k) = match assign_groups(&groups, &order, payload) {
+        Ok(x) => x,
+        Err((gi, acc)) => {
+            o.fail("conc-batch-straddles-frames", format!("frame group #{gi} carries {} payload bytes, which is not the sum of consecutive whole batches ({acc})", groups[gi].payload));
             return;
         }
-        if g.payload > BLOCK {
-            o.fail("conc-merged-batch-too-large", format!("frame group #{gi} carries {} payload bytes, more than the 1 MiB batch limit", g.payload));
-            return;
-        }
-        members.push(m);
+    };
+    if let Some((gi, g)) = groups.iter().enumerate().find(|(_, g)| g.payload > BLOCK) {
+        o.fail("conc-merged-batch-too-large", format!("frame group #{gi} carries {} payload bytes, more than the 1 MiB batch limit", g.payload));
+        return;
     }
     if k != order.len() {
         o.fail("conc-batch-straddles-frames", format!("{} batches were read but the frames account for {k}", order.len()));
@@ -696,7 +1053,79 @@ fn judge(
     if members.iter().zip(groups.iter()).any(|(m, g)| m.len() >= 2 && g.split.is_some()) {
         o.label("merged-and-split");
     }
+    conc_labels(c, d, o);
+    if c.mode == Mode::PileupWrite && pile_established {
+        let followers: u64 = (1..nt).map(|t| payload[t][0]).sum();
+        let d = followers as i64 - BLOCK as i64;
+        if d.abs() <= 80 {
+            o.label(format!("pileup-write:waiters-total:{}", match d {
+                0 => "=1MiB".to_string(),
+                -3..=-1 => "1MiB-1..3".to_string(),
+                1..=3 => "1MiB+1..3".to_string(),
+                x if x < 0 => "1MiB-4..80".to_string(),
+                _ => "1MiB+4..80".to_string(),
+            }));
+        }
+        if (1..nt).any(|t| payload[t][0] >= sst::MAX_BATCH_LEN as u64) && (1..nt).any(|t| payload[t][0] < 100) {
+            o.label("pileup-write:maximal-batch-waits-with-a-tiny-one");
+        }
+    }
+    if let Some(g) = members.iter().zip(groups.iter()).find(|(m, _)| m.len() >= 2).map(|(_, g)| g).filter(|g| g.payload == BLOCK) {
+        let _ = g;
+        o.label("merged-write-of-exactly-1MiB");
+    }
+    for f in d.fsyncs.iter() {
+        o.label(if f.synced_at_return >= f.len_before { "fsync():everything-written-before-the-call-synced-at-return" } else { "fsync():returned-while-bytes-written-before-the-call-were-unsynced" });
+    }
     o.nontrivial = merged >= 1;
+}
+
+/// Labels that describe how the case used the API.
+pub fn conc_labels(c: &ConcCase, d: &Driven, o: &mut Outcome) {
+    o.label(match &c.ctor {
+        Ctor::FromWrite => "ctor:from_write".to_string(),
+        Ctor::New => "ctor:new(path)".to_string(),
+        Ctor::FromBuilder { prefill, flush } => format!("ctor:from_builder:{}:{}", if prefill.is_empty() { "empty" } else { "non-empty" }, if *flush { "flushed" } else { "buffered" }),
+    });
+    c.opts.labels(o);
+    let shapes = c.threads.iter().flat_map(|t| t.batches.iter());
+    let mut seen = std::collections::BTreeSet::new();
+    for b in shapes {
+        if b.single {
+            seen.insert(if b.tomb { "call:del" } else { "call:put" });
+        } else {
+            seen.insert(match b.via {
+                Via::PutDel => "batch-via:put/del",
+                Via::Insert => "batch-via:insert",
+                Via::Merge => "batch-via:merge",
+                Via::Mixed => "batch-via:insert+put/del+merge",
+            });
+        }
+    }
+    for p in d.payload.iter().flatten() {
+        if *p == BLOCK {
+            seen.insert("batch-payload:1MiB");
+        } else if *p >= sst::log::MAX_BATCH_SIZE {
+            seen.insert("batch-payload:>=MAX_BATCH_SIZE");
+        } else if *p >= sst::MAX_BATCH_LEN as u64 {
+            seen.insert("batch-payload:>=MAX_BATCH_LEN");
+        }
+    }
+    if !d.fsyncs.is_empty() {
+        seen.insert("call:fsync");
+    }
+    for (t, th) in c.threads.iter().enumerate() {
+        for (s, b) in th.batches.iter().enumerate() {
+            if let (Some(p), false) = (b.exact, b.single) {
+                if d.payload[t][s] != p as u64 {
+                    seen.insert("exact-size-plan-missed");
+                }
+            }
+        }
+    }
+    for l in seen {
+        o.label(l);
+    }
 }
 
 pub struct Concurrent;
@@ -707,7 +1136,7 @@ impl Property for Concurrent {
         "concurrent-append".into()
     }
     fn cases(&self, tier: Tier) -> u64 {
-        tier.pick(200, 2500)
+        tier.pick(230, 2800)
     }
     fn max_shrink_iters(&self) -> u32 {
         60
